@@ -6,6 +6,7 @@ import (
 	"sort"
 	"strings"
 	"sync"
+	"sync/atomic"
 	"time"
 
 	"golang.org/x/tools/go/ssa"
@@ -117,6 +118,20 @@ func explore(job *Job, workers int, solverKind string) *JobResult {
 	e := &explorer{job: job, fn: fn, res: res, started: time.Now(), solverKind: solverKind}
 	e.cond = sync.NewCond(&e.mu)
 	e.stack = []*item{{exclAt: -1}}
+	if os.Getenv("GOSYM_PROGRESS") != "" {
+		go func() {
+			for {
+				time.Sleep(5 * time.Second)
+				e.mu.Lock()
+				fmt.Fprintf(os.Stderr, "progress %s: paths=%d stack=%d active=%d outcomes=%v\n", job.Name(), res.Paths, len(e.stack), e.active, res.ByOutcome)
+				stop := e.stop || (len(e.stack) == 0 && e.active == 0)
+				e.mu.Unlock()
+				if stop {
+					return
+				}
+			}
+		}()
+	}
 	var wg sync.WaitGroup
 	for w := 0; w < workers; w++ {
 		wg.Add(1)
@@ -245,7 +260,11 @@ func (e *explorer) runOne(it *item, solver *smt.Solver) []*item {
 	}
 	switch r.Outcome {
 	case interp.Violation, interp.EscapedPanic, interp.Budget:
-		res.Findings = append(res.Findings, &Finding{Job: job, Outcome: r.Outcome.String(), Msg: r.Msg, PanicSite: r.PanicSite, Inputs: inputs, Labels: labels})
+		site := r.PanicSite
+		if site == "" && len(r.TriedSites) > 0 {
+			site = r.TriedSites[len(r.TriedSites)-1]
+		}
+		res.Findings = append(res.Findings, &Finding{Job: job, Outcome: r.Outcome.String(), Msg: r.Msg, PanicSite: site, Inputs: inputs, Labels: labels})
 	case interp.EngineError:
 		if len(res.EngineErrors) < 20 {
 			res.EngineErrors = append(res.EngineErrors, fmt.Sprintf("%s inputs=%v: %s\n%s", job.Name(), inputs, r.Msg, trunc(r.Stack, 3000)))
@@ -281,83 +300,269 @@ func (e *explorer) runOne(it *item, solver *smt.Solver) []*item {
 	}
 
 	// Ask the solver for the other side of every decision past the bound.
+	// Each query contains only the path constraints that (transitively) share
+	// input variables with the negated decision (constraint independence);
+	// the remaining inputs keep their current values, which already satisfy
+	// the rest of the path condition. Answers are cached across paths.
 	var children []*item
-	em := smt.NewEmitter()
+	sess := &session{solver: solver, em: smt.NewEmitter()}
+	defer sess.close()
+	sl := newSlicer(len(r.Vars))
 	vars := make([]*smt.Term, len(r.Vars))
 	for k, v := range r.Vars {
 		vars[k] = v.Term
-		em.Ref(v.Term)
 	}
-	solver.SendRaw("(push)\n")
-	defer solver.SendRaw("(pop)\n")
-	pending := em.Flush()
-	for k, br := range r.Trace {
-		ref := em.Ref(br.Cond)
-		pending += em.Flush()
-		lit, neg := ref, "(not "+ref+")"
-		if !br.Taken {
-			lit, neg = neg, lit
+	child := func(model map[int32]uint64) []uint64 {
+		in := make([]uint64, len(inputs))
+		copy(in, inputs)
+		for vi, val := range model {
+			in[vi] = val
 		}
+		return in
+	}
+	prefix := func(k int) []bool {
+		exp := make([]bool, k)
+		for q := 0; q < k; q++ {
+			exp[q] = r.Trace[q].Taken
+		}
+		return exp
+	}
+	for k, br := range r.Trace {
+		this := literal{t: br.Cond, pos: br.Taken}
 		if br.Kind == interp.BrConcretize {
 			// cond is (= term const); enumerate other values of term
-			tref := em.Ref(br.Cond.Args[0])
-			pending += em.Flush()
 			var excl []uint64
 			if it.exclAt == k {
 				excl = it.excl
 				for _, c := range excl {
-					pending += "(assert (not (= " + tref + " " + constLit(br.Cond.Args[1], c) + ")))\n"
+					sl.add(literal{t: smt.App("=", smt.Bool, br.Cond.Args[0], likeConst(br.Cond.Args[1], c)), pos: false})
 				}
 			}
 			if k >= it.bound {
-				cur := constBits(br.Cond.Args[1])
-				text := pending + "(push)\n(assert " + neg + ")\n"
-				pending = ""
-				result, model, err := solver.Check(text, vars)
-				solver.SendRaw("(pop)\n")
-				if err != nil {
-					e.noteSolverErr(err)
-				}
+				result, model := e.query(sess, sl, literal{t: br.Cond, pos: false}, vars)
 				if result == smt.Sat {
-					in := make([]uint64, len(vars))
-					for vi, v := range vars {
-						in[vi] = model[v.Name]
-					}
-					exp := make([]bool, k)
-					for q := 0; q < k; q++ {
-						exp[q] = r.Trace[q].Taken
-					}
-					ne := append(append([]uint64{}, excl...), cur)
-					children = append(children, &item{inputs: in, bound: k, expect: exp, exclAt: k, excl: ne})
+					ne := append(append([]uint64{}, excl...), constBits(br.Cond.Args[1]))
+					children = append(children, &item{inputs: child(model), bound: k, expect: prefix(k), exclAt: k, excl: ne})
 				}
 			}
-			pending += "(assert " + lit + ")\n"
+			sl.add(this)
 			continue
 		}
 		if k >= it.bound && negatable(br) {
-			text := pending + "(push)\n(assert " + neg + ")\n"
-			pending = ""
-			result, model, err := solver.Check(text, vars)
-			solver.SendRaw("(pop)\n")
-			if err != nil {
-				e.noteSolverErr(err)
-			}
+			result, model := e.query(sess, sl, literal{t: br.Cond, pos: !br.Taken}, vars)
 			if result == smt.Sat {
-				in := make([]uint64, len(vars))
-				for vi, v := range vars {
-					in[vi] = model[v.Name]
-				}
-				exp := make([]bool, k+1)
-				for q := 0; q < k; q++ {
-					exp[q] = r.Trace[q].Taken
-				}
-				exp[k] = !br.Taken
-				children = append(children, &item{inputs: in, bound: k + 1, expect: exp, exclAt: -1})
+				exp := append(prefix(k), !br.Taken)
+				children = append(children, &item{inputs: child(model), bound: k + 1, expect: exp, exclAt: -1})
 			}
 		}
-		pending += "(assert " + lit + ")\n"
+		sl.add(this)
 	}
 	return children
+}
+
+// literal is a path-condition conjunct.
+type literal struct {
+	t   *smt.Term
+	pos bool
+}
+
+func (l literal) key() [2]uint64 {
+	if l.pos {
+		return [2]uint64{l.t.H1, l.t.H2}
+	}
+	return [2]uint64{^l.t.H1, l.t.H2 + 0x5851F42D4C957F2D}
+}
+
+// slicer groups the literals asserted so far into independent components
+// (union-find over input-variable indices).
+type slicer struct {
+	parent []int32
+	lits   map[int32][]literal // by root
+}
+
+func newSlicer(n int) *slicer {
+	s := &slicer{parent: make([]int32, n), lits: map[int32][]literal{}}
+	for i := range s.parent {
+		s.parent[i] = int32(i)
+	}
+	return s
+}
+
+func (s *slicer) find(x int32) int32 {
+	for s.parent[x] != x {
+		s.parent[x] = s.parent[s.parent[x]]
+		x = s.parent[x]
+	}
+	return x
+}
+
+func (s *slicer) add(l literal) {
+	vs := l.t.Vars
+	if len(vs) == 0 {
+		return
+	}
+	root := s.find(vs[0])
+	for _, v := range vs[1:] {
+		r2 := s.find(v)
+		if r2 == root {
+			continue
+		}
+		// merge smaller list into larger
+		if len(s.lits[r2]) > len(s.lits[root]) {
+			root, r2 = r2, root
+		}
+		s.parent[r2] = root
+		s.lits[root] = append(s.lits[root], s.lits[r2]...)
+		delete(s.lits, r2)
+	}
+	s.lits[root] = append(s.lits[root], l)
+}
+
+// slice returns the literals sharing variables (transitively) with t.
+func (s *slicer) slice(t *smt.Term) []literal {
+	var out []literal
+	seen := map[int32]bool{}
+	for _, v := range t.Vars {
+		r := s.find(v)
+		if seen[r] {
+			continue
+		}
+		seen[r] = true
+		out = append(out, s.lits[r]...)
+	}
+	return out
+}
+
+type cacheEntry struct {
+	res   smt.Result
+	model map[int32]uint64
+}
+
+var (
+	queryCache   sync.Map // [2]uint64 -> cacheEntry
+	cacheHits    int64
+	cacheMisses  int64
+	trivialUnsat int64
+)
+
+// session is the solver context of one run: definitions are sent lazily.
+type session struct {
+	solver *smt.Solver
+	em     *smt.Emitter
+	open   bool
+}
+
+func (s *session) ensure() {
+	if !s.open {
+		s.solver.SendRaw("(push)\n")
+		s.open = true
+	}
+}
+
+func (s *session) close() {
+	if s.open {
+		s.solver.SendRaw("(pop)\n")
+	}
+}
+
+// query decides slice(neg) AND neg.
+func (e *explorer) query(sess *session, sl *slicer, neg literal, vars []*smt.Term) (smt.Result, map[int32]uint64) {
+	lits := sl.slice(neg.t)
+	// dedupe, detect the syntactic contradiction, build the cache key
+	nk := neg.key()
+	opp := literal{t: neg.t, pos: !neg.pos}.key()
+	seen := map[[2]uint64]bool{}
+	uniq := lits[:0:0]
+	for _, l := range lits {
+		k := l.key()
+		if k == opp {
+			atomic.AddInt64(&trivialUnsat, 1)
+			return smt.Unsat, nil
+		}
+		if seen[k] || k == nk {
+			continue
+		}
+		seen[k] = true
+		uniq = append(uniq, l)
+	}
+	keys := make([][2]uint64, 0, len(uniq)+1)
+	for _, l := range uniq {
+		keys = append(keys, l.key())
+	}
+	sort.Slice(keys, func(a, b int) bool {
+		if keys[a][0] != keys[b][0] {
+			return keys[a][0] < keys[b][0]
+		}
+		return keys[a][1] < keys[b][1]
+	})
+	keys = append(keys, nk)
+	var ck [2]uint64
+	ck[0], ck[1] = 14695981039346656037, 0x9E3779B97F4A7C15
+	for _, k := range keys {
+		ck[0] = (ck[0] ^ k[0]) * 1099511628211
+		ck[0] ^= ck[0] >> 31
+		ck[1] = (ck[1]+k[1])*0xBF58476D1CE4E5B9 + 0x2545F4914F6CDD1D
+		ck[1] ^= ck[1] >> 29
+	}
+	if v, ok := queryCache.Load(ck); ok {
+		atomic.AddInt64(&cacheHits, 1)
+		ce := v.(cacheEntry)
+		return ce.res, ce.model
+	}
+	atomic.AddInt64(&cacheMisses, 1)
+
+	sess.ensure()
+	var sb strings.Builder
+	var body strings.Builder
+	varSet := map[int32]bool{}
+	emit := func(l literal) {
+		ref := sess.em.Ref(l.t)
+		if l.pos {
+			body.WriteString("(assert " + ref + ")\n")
+		} else {
+			body.WriteString("(assert (not " + ref + "))\n")
+		}
+		for _, v := range l.t.Vars {
+			varSet[v] = true
+		}
+	}
+	for _, l := range uniq {
+		emit(l)
+	}
+	emit(neg)
+	sb.WriteString(sess.em.Flush())
+	sb.WriteString("(push)\n")
+	sb.WriteString(body.String())
+	var qvars []*smt.Term
+	for v := range varSet {
+		qvars = append(qvars, vars[v])
+	}
+	sort.Slice(qvars, func(a, b int) bool { return qvars[a].VarIdx < qvars[b].VarIdx })
+	result, model, err := sess.solver.Check(sb.String(), qvars)
+	sess.solver.SendRaw("(pop)\n")
+	if err != nil {
+		e.noteSolverErr(err)
+		return smt.Unknown, nil
+	}
+	ce := cacheEntry{res: result}
+	if result == smt.Sat {
+		ce.model = map[int32]uint64{}
+		for _, v := range qvars {
+			ce.model[int32(v.VarIdx)] = model[v.Name]
+		}
+	}
+	if result != smt.Unknown {
+		queryCache.Store(ck, ce)
+	}
+	return ce.res, ce.model
+}
+
+// likeConst builds a constant of the same shape as like with other bits.
+func likeConst(like *smt.Term, bits uint64) *smt.Term {
+	if like.Op == "const" {
+		return smt.Const(like.S, bits)
+	}
+	return smt.App(like.Op, like.S, smt.Const(like.Args[0].S, bits))
 }
 
 func (e *explorer) noteSolverErr(err error) {
@@ -378,14 +583,6 @@ func constBits(t *smt.Term) uint64 {
 		return t.Args[0].Val
 	}
 	panic("constBits: not a constant: " + t.String())
-}
-
-// constLit renders a constant of the same shape as like with other bits.
-func constLit(like *smt.Term, bits uint64) string {
-	if like.Op == "const" {
-		return smt.Const(like.S, bits).String()
-	}
-	return "(" + like.Op + " " + smt.Const(like.Args[0].S, bits).String() + ")"
 }
 
 func negatable(br interp.Branch) bool {
